@@ -15,6 +15,9 @@ type iterator struct {
 	values    [][]byte
 }
 
+// globEscaper makes a key usable as a literal inside a SCAN MATCH pattern.
+var globEscaper = strings.NewReplacer(`\`, `\\`, `*`, `\*`, `?`, `\?`, `[`, `\[`, `]`, `\]`)
+
 // NewIterator creates a new iterator for the given prefix. The start key is inclusive.
 func (db *redisDB) NewIterator(prefix []byte, start []byte) (database.Iterator, error) {
 	buf := make([]byte, 0, len(prefix)+len(start))
@@ -27,7 +30,9 @@ func (db *redisDB) NewIterator(prefix []byte, start []byte) (database.Iterator, 
 	allKeys := make([]string, 0, 100)
 	var err error
 
-	pattern := startString + "*"
+	// Match on the prefix only, with glob metacharacters in it taken literally
+	prefixString := string(prefix)
+	pattern := globEscaper.Replace(prefixString) + "*"
 
 	for {
 		var keys []string
@@ -36,9 +41,9 @@ func (db *redisDB) NewIterator(prefix []byte, start []byte) (database.Iterator, 
 			return nil, err
 		}
 
-		// Filter keys that match the prefix
+		// Filter keys that match the prefix and sort at or after prefix+start
 		for _, key := range keys {
-			if strings.HasPrefix(key, startString) {
+			if strings.HasPrefix(key, prefixString) && strings.Compare(key, startString) >= 0 {
 				allKeys = append(allKeys, key)
 			}
 		}
